@@ -166,7 +166,8 @@ def run(tier, seed, features=None, n=None, debug=False):
         # a part of the programs uses one group of features only, so that a disagreement names its cause
         r = i % 4
         f = feats if r else feats & (STAGES["text"] | STAGES["choices"])
-        progs.append(gen_ast.generate(seed * 1000003 + i, f, knots=2 + i % 3))
+        focus = {4: "bursts", 5: "nested"}.get(i % 6) if r else None
+        progs.append(gen_ast.generate(seed * 1000003 + i, f, knots=2 + i % 3, focus=focus))
     all_cases, all_mism, states, trans = [], [], 0, 0
     look_cases = look_conts = 0
     skipped_total = {}
